@@ -80,6 +80,46 @@ fn check_linear<L: LayoutTrait>(s: &Setting<L>, pi: &PublicInput, terms: &[Felt]
     bad
 }
 
+/// Every interaction element (Fiat-Shamir challenge of the interaction phase) must be CONSUMED: changing one of
+/// them alone changes the composition value for a random coefficient vector.  (For the dynamic layout this is
+/// run with every builtin enabled.)
+fn element_sensitivity<L: LayoutTrait>(s: &Setting<L>, pi: &PublicInput, layout: &str, rng: &mut SplitMix, rep: &mut Report)
+where
+    L::InteractionElements: serde::Serialize + serde::de::DeserializeOwned,
+{
+    let c = rng.felts(L::N_CONSTRAINTS);
+    let base = match comp::<L>(s, pi, &c) {
+        Ok(v) => v,
+        Err(_) => return,
+    };
+    let v0 = match serde_json::to_value(&s.ie) {
+        Ok(v) => v,
+        Err(_) => return,
+    };
+    let keys: Vec<String> = v0.as_object().map(|o| o.keys().cloned().collect()).unwrap_or_default();
+    for k in keys {
+        let mut v1 = v0.clone();
+        let cur = match v1[&k].as_str().and_then(|h| Felt::from_hex(h).ok()) {
+            Some(f) => f,
+            None => continue,
+        };
+        v1[&k] = Value::String(fhex(&(cur + Felt::ONE)));
+        let ie2: L::InteractionElements = match serde_json::from_value(v1) {
+            Ok(x) => x,
+            Err(_) => continue,
+        };
+        let s2 = Setting::<L> { ie: ie2, mask: s.mask.clone(), point: s.point, trace_size: s.trace_size, trace_gen: s.trace_gen };
+        let used = matches!(comp::<L>(&s2, pi, &c), Ok(v) if v != base);
+        rep.eval(if used { "interaction-element:consumed" } else { "interaction-element:IGNORED" });
+        rep.nontrivial_case(&format!("ie|{}|{}", layout, k));
+        if !used {
+            rep.violation(&format!("composition:{}:interaction-element-ignored:{}", layout, k),
+                &format!("{}: changing the interaction element `{}` alone does not change the composition value (the challenge is not consumed, or another one is used in its place)", layout, k),
+                json!({"kind": "layout", "layout": layout}));
+        }
+    }
+}
+
 // ------------------------------------------------------------------ DEEP evaluator
 pub struct MaskEntry {
     pub column: usize,
@@ -174,7 +214,7 @@ fn n_columns(pf: &ProofFile) -> usize {
 
 fn one_layout<L: LayoutTrait>(ctx: &Ctx, pf: &ProofFile, rep: &mut Report)
 where
-    L::InteractionElements: Sync,
+    L::InteractionElements: Sync + serde::Serialize + serde::de::DeserializeOwned,
 {
     let layout = pf.loaded.meta.layout.clone();
     let pi = &pf.loaded.proof.public_input;
@@ -193,6 +233,9 @@ where
                 rep.evals("composition:term-zero", zeros.len() as u64);
                 for i in 0..terms.len() {
                     rep.nontrivial_case(&format!("comp|{}|{}", layout, i));
+                }
+                if layout != "dynamic" && k == 0 {
+                    element_sensitivity::<L>(&s, pi, &layout, &mut rng, rep);
                 }
                 if layout != "dynamic" {
                     for i in &zeros {
@@ -274,7 +317,7 @@ const USES: [&str; 10] = ["uses_add_mod_builtin", "uses_bitwise_builtin", "uses_
 /// Dynamic layout: sweep the ten uses_* flags.
 fn dynamic_masks<L: LayoutTrait>(ctx: &Ctx, pf: &ProofFile, s: &Setting<L>, honest_terms: &[Felt], rep: &mut Report)
 where
-    L::InteractionElements: Sync,
+    L::InteractionElements: Sync + serde::Serialize + serde::de::DeserializeOwned,
 {
     let base = serde_json::to_value(&pf.loaded.proof.public_input).unwrap();
     let with_mask = |m: u32| -> PublicInput {
@@ -298,6 +341,7 @@ where
             return;
         }
     };
+    element_sensitivity::<L>(s, &with_mask(0x3ff), "dynamic", &mut ctx.rng(0x16ee), rep);
     // Z_b: positions that vanish when only builtin b is off
     let mut owner: Vec<Option<usize>> = vec![None; all_on.len()];
     let mut overlap = false;
